@@ -187,6 +187,11 @@ func c02BoundaryProp(st *CaseStats, assoc bool) func(t *rapid.T) {
 		defer ctx.Close()
 		sc := GenScenario(t)
 		nA := rapid.IntRange(1, 4).Draw(t, "nA")
+		// the term in EVERY surviving document: the merged segment then has exactly `target` documents
+		everySurvivor := rapid.IntRange(0, 2).Draw(t, "termInEverySurvivor") == 0
+		if everySurvivor {
+			nA = 1
+		}
 		hitA := rapid.IntRange(0, nA-1).Draw(t, "hitA")
 		hitLocs := rapid.IntRange(0, 3).Draw(t, "hitWithLocs") == 0
 		a := make(Batch, nA)
@@ -210,6 +215,9 @@ func c02BoundaryProp(st *CaseStats, assoc bool) func(t *rapid.T) {
 			T--
 		}
 		nB := T + rapid.IntRange(0, 30).Draw(t, "tailB")
+		if everySurvivor {
+			nB = T
+		}
 		locEvery := rapid.SampledFrom([]int{0, 1, 5}).Draw(t, "locEvery")
 		b := make(Batch, nB)
 		for i := range b {
